@@ -323,12 +323,7 @@ def judge_api(tree, B, objs, judged, supports, leaf_items, status, subs, exc, re
             continue
         if not got:
             continue
-        bad = G.same(exp, got[0], node_tol(n))
-        if bad:
-            sig = value_signature(n, got[0])
-            return (sig, f"{G.render_expr(tree)}: node {G.render_expr(n)} sampled as {got[0]!r}, plain Python gives {exp!r} ({bad}); {desc_in()}", {"route": "api"})
-        res["node_values_checked"] += 1
-        if n[0] == "bin":
+        if n[0] == "bin":  # identity-element forms that got judged (whatever the verdict)
             form = identity_form(n)
             if form:
                 if form in G.SHORTCUTS.values():
@@ -339,6 +334,11 @@ def judge_api(tree, B, objs, judged, supports, leaf_items, status, subs, exc, re
                     except Exception:
                         pass
                 res["identity_forms"][form] += 1
+        bad = G.same(exp, got[0], node_tol(n))
+        if bad:
+            sig = value_signature(n, got[0])
+            return (sig, f"{G.render_expr(tree)}: node {G.render_expr(n)} sampled as {got[0]!r}, plain Python gives {exp!r} ({bad}); {desc_in()}", {"route": "api"})
+        res["node_values_checked"] += 1
 
     if status == "raise":
         if first_py_exc is not None and type(first_py_exc[1]) is type(exc):
@@ -1052,12 +1052,6 @@ def run(ctx):
         guards[f"container {c}"] = v
     forms = dict(total["identity_forms"])
     for name in G.SHORTCUTS.values():
-        if name == "x//1" and not forms.get("x//1:float-valued"):
-            # on the unchanged tree every float-valued x // 1 is a (reported) violation, hence never
-            # counted as a checked value; the int-valued form must still be there
-            guards["identity form x//1:float-valued judged or reported"] = sum(1 for sig, _, _ in total["violations"] if "floordiv-by-1" in sig)
-            guards["identity form x//1:int-valued judged"] = forms.get("x//1:int-valued", 0)
-            continue
         for kind in ("int-valued", "float-valued"):
             guards[f"identity form {name}:{kind} judged"] = forms.get(f"{name}:{kind}", 0)
     for name in ("v+zero-vector", "v-zero-vector", "zero-vector+v", "q*identity", "identity*q"):
